@@ -53,7 +53,13 @@ def wire_trace(ctx):
     cargo_build(ctx, "h_core")
     n = ctx.pick(300, 4000)
     cmds = [([hbin("h_core"), "wire", "--n", str(n), "--seed", str(ctx.seed * 1000 + i), "--depth", str(3 if i % 4 else 4)], f"wire-{i}.ndjson") for i in range(NSH)]
-    return trace_stage(ctx, "wire", cmds, "Trace_Wire", nontrivial=lambda e: not (e.get("op") == "dec" and e.get("input") == []))
+    req = [f"dec:{k}" for k in ("ok", "End", "BadVarint", "BadBool", "BadOption", "BadUtf8", "BadChar", "Custom")]
+    req += [f"enc:{e}" for e in ("to_slice", "to_vec", "to_allocvec", "to_stdvec", "to_extend", "to_io", "to_eio")]
+    req += [f"dec-entry:{e}" for e in ("take_from_bytes", "from_bytes", "from_io", "from_eio", "deserializer")]
+    req += [f"dec-shape:{k}" for k in ("u16", "i16", "u32", "i32", "u64", "i64", "u128", "i128", "usize", "isize", "f32", "f64", "char", "str", "bytes", "bool",
+                                       "opt", "seq", "map", "tuple", "struct", "enum", "newtype_struct", "tuple_struct", "unit", "unit_struct", "u8", "i8")]
+    req += ["seqhdr", "sequnk", "cstr:ok", "refused"]
+    return trace_stage(ctx, "wire", cmds, "Trace_Wire", nontrivial=lambda e: not (e.get("op") == "dec" and e.get("input") == []), require=req)
 
 
 def exh16_trace(ctx):
@@ -146,7 +152,8 @@ def acc_streams(ctx):
     n, nexh, el = ctx.pick((60, 3, 9), (1500, 24, 12))
     cmds = [([hbin("h_core"), "acc-stream", "--n", str(n), "--nexh", str(nexh), "--exhlen", str(el), "--seed", str(ctx.seed * 100 + i)], f"accstream-{i}.ndjson")
             for i in range(NSH)]
-    return trace_stage(ctx, "acc-streams", cmds, "Trace_Acc", nontrivial=lambda e: e.get("op") == "feed")
+    req = [f"feed:{m}:{k}" for m in ("feed", "feed_ref") for k in ("Consumed", "OverFull", "DeserError", "Success")]
+    return trace_stage(ctx, "acc-streams", cmds, "Trace_Acc", nontrivial=lambda e: e.get("op") == "feed", require=req)
 
 
 def run_acc(ctx):
@@ -203,7 +210,9 @@ def ser_trace(ctx):
     cargo_build(ctx, "h_core")
     n = ctx.pick(150, 2500)
     cmds = [([hbin("h_core"), "ser", "--n", str(n), "--seed", str(ctx.seed * 1000 + i)], f"ser-{i}.ndjson") for i in range(NSH)]
-    return trace_stage(ctx, "ser", cmds, "Trace_Ser")
+    req = [f"serb:{sig}:{st}:{r}" for sig in ("plain", "cobs", "crc", "crc+cobs") for st, r in (("slice", "ok"), ("slice", "BufferFull"), ("hvec", "ok"), ("hvec", "BufferFull"), ("allocvec", "ok"))]
+    req += ["serb:plain:size:ok", "serb:crc:size:ok", "serb:plain:extend:ok", "userflavor", "cobs_ops:ok", "cobs_ops:BufferFull"]
+    return trace_stage(ctx, "ser", cmds, "Trace_Ser", require=req)
 
 
 def cobsde_trace(ctx):
@@ -211,7 +220,8 @@ def cobsde_trace(ctx):
     n, exh = ctx.pick((40, 6), (600, 8))
     cmds = [([hbin("h_core"), "cobs-de", "--n", str(n), "--exh", str(exh), "--seed", str(ctx.seed), "--shard", str(i), "--shards", str(NSH)], f"cobsde-{i}.ndjson")
             for i in range(NSH)]
-    return trace_stage(ctx, "cobs-de", cmds, "Trace_Frame")
+    req = ["cobs_take:ok", "cobs_take:BadEncoding", "cobs_take:End", "cobs_from:ok", "cobs_from:BadEncoding"]
+    return trace_stage(ctx, "cobs-de", cmds, "Trace_Frame", require=req)
 
 
 def crcde_trace(ctx):
@@ -222,7 +232,8 @@ def crcde_trace(ctx):
     cmds = [([hbin("h_core"), "crc-de", "--n", str(n if not (ctx.tier == "thorough" and i < 2) else 4), "--seed", str(ctx.seed * 100 + i)]
              + (["--deep", "1"] if ctx.tier == "thorough" and i < 2 else []), f"crcde-{i}.ndjson")
             for i in range(NSH)]
-    return trace_stage(ctx, "crc-de", cmds, "Trace_Frame")
+    req = [f"crc{w}:{k}" for w in (1, 2, 4, 8, 16) for k in ("intact:ok", "bit:BadCrc", "trunc:End", "burst:", "cksum:BadCrc")]
+    return trace_stage(ctx, "crc-de", cmds, "Trace_Frame", require=req)
 
 
 def _want(mm):
@@ -327,7 +338,8 @@ def io_trace(ctx):
     cargo_build(ctx, "h_core")
     n = ctx.pick(60, 1200)
     cmds = [([hbin("h_core"), "io", "--n", str(n), "--seed", str(ctx.seed * 1000 + i)], f"io-{i}.ndjson") for i in range(NSH)]
-    return trace_stage(ctx, "io", cmds, "Trace_Io")
+    req = ["io_ser:ok", "io_ser:BufferFull", "io_de:io:ok", "io_de:io:End", "io_de:eio:ok", "io_de:eio:End"]
+    return trace_stage(ctx, "io", cmds, "Trace_Io", require=req)
 
 
 def io_trace_eio04(ctx):
